@@ -1,6 +1,7 @@
 package main
 
 import (
+	"go/types"
 	"fmt"
 	"go/token"
 	"sort"
@@ -406,4 +407,117 @@ func c15RegisteredElsewhere(p *Prog, fn *ssa.Function, v ssa.Value, depth int) s
 		}
 	}
 	return ""
+}
+
+// C15/R6 every binding of a hoisted import statement is registered.
+//
+// When a CommonJS-wrapped file is emitted into an ESM-format chunk, its external `import` /
+// `export … from` statements are hoisted out of the wrapper closure to the top level of the chunk.
+// Their bindings are then top-level names of the chunk and must be registered as such with the
+// NumberRenamer (AddTopLevelSymbol); a binding that is only known as a member of the wrapped file's
+// own (nested) scope can be given the same name as the hoisted binding of another wrapped file:
+// two declarations of one name in one scope.
+// Rule (field coverage): in renameSymbolsInChunk, for each statement type that is type-tested there
+// (SImport, SExportStar, SExportFrom), every field of the type that carries a symbol reference
+// (ast.Ref, ast.LocRef, clause items) flows into a registration call of the renamer.
+func c15HoistedImportBindings(p *Prog) *RuleResult {
+	r := NewRule("C15/R6 hoisted-import-bindings", "every symbol-bearing field of the import/export-from statements hoisted out of a CommonJS wrapper (namespace ref, default name, clause items) is registered as a top-level symbol of the chunk")
+	fn := p.FindFunc("linker.(*linkerContext).renameSymbolsInChunk")
+	if !r.Anchor("linker.(*linkerContext).renameSymbolsInChunk", fn != nil) {
+		return r
+	}
+	var hasRef func(t types.Type, depth int) bool
+	hasRef = func(t types.Type, depth int) bool {
+		if depth > 4 {
+			return false
+		}
+		if namedTypeName(t) == "ast.Ref" {
+			return true
+		}
+		switch u := t.Underlying().(type) {
+		case *types.Pointer:
+			return hasRef(u.Elem(), depth+1)
+		case *types.Slice:
+			return hasRef(u.Elem(), depth+1)
+		case *types.Struct:
+			for i := 0; i < u.NumFields(); i++ {
+				if hasRef(u.Field(i).Type(), depth+1) {
+					return true
+				}
+			}
+		}
+		return false
+	}
+	// registration arguments
+	var regArgs []ssa.Value
+	for _, f := range withClosures(fn) {
+		eachInstr(f, func(b *ssa.BasicBlock, in ssa.Instruction) {
+			if c, ok := in.(ssa.CallInstruction); ok {
+				if callee := c.Common().StaticCallee(); callee != nil && FuncName(callee) == "renamer.(*NumberRenamer).AddTopLevelSymbol" && len(c.Common().Args) > 1 {
+					regArgs = append(regArgs, c.Common().Args[1])
+				}
+			}
+		})
+	}
+	if !r.Anchor("AddTopLevelSymbol registrations in renameSymbolsInChunk", len(regArgs) >= 3) {
+		return r
+	}
+	n := 0
+	for _, f := range withClosures(fn) {
+		eachInstr(f, func(b *ssa.BasicBlock, in ssa.Instruction) {
+			ta, ok := in.(*ssa.TypeAssert)
+			if !ok || !ta.CommaOk {
+				return
+			}
+			kind := shortTypeName(ta.AssertedType)
+			if kind != "SImport" && kind != "SExportStar" && kind != "SExportFrom" {
+				return
+			}
+			pt, ok := ta.AssertedType.Underlying().(*types.Pointer)
+			if !ok {
+				return
+			}
+			st, ok := pt.Elem().Underlying().(*types.Struct)
+			if !ok {
+				return
+			}
+			var node ssa.Value
+			for _, rf := range *ta.Referrers() {
+				if e0, ok := rf.(*ssa.Extract); ok && e0.Index == 0 {
+					node = e0
+				}
+			}
+			if node == nil {
+				return
+			}
+			n++
+			for i := 0; i < st.NumFields(); i++ {
+				fld := st.Field(i)
+				if !hasRef(fld.Type(), 0) {
+					continue
+				}
+				r.Instances++
+				key := kind + "." + fld.Name() + " registered as top-level"
+				found := false
+				for _, a := range regArgs {
+					backSlice(a, func(v ssa.Value) bool {
+						if fa, ok := v.(*ssa.FieldAddr); ok && fa.X == node && fieldAddrName(fa) == fld.Name() {
+							found = true
+						}
+						return !found
+					})
+					if found {
+						break
+					}
+				}
+				if found {
+					r.OK(key, true, "flows into NumberRenamer.AddTopLevelSymbol")
+				} else {
+					r.Fail(key, p.Pos(ta.Pos()), "the symbols in "+kind+"."+fld.Name()+" of a hoisted statement are not registered as top-level symbols of the chunk: two CommonJS-wrapped files that both have such a binding under one name produce two top-level declarations of that name (`import fs from \"node:fs\"` twice)")
+				}
+			}
+		})
+	}
+	r.Anchor("type tests of hoisted import/export statements", n >= 3)
+	return r
 }
